@@ -13,6 +13,9 @@ DataKeysDef == [d \in XDets \cup XMotors \cup XMons |->
                    [] d = "mon1" -> {"mon1"}]
 StreamOrderDef == <<"baseline", "interruptions", "mon1", "primary">>
 DevOrderDef == <<"det", "det2", "mon1", "motor", "motor2", "pdet", "amotor", "apdet">>
+XSus == {"s1", "s2"}
+SigOfDef == [x \in XSus |-> IF x = "s1" THEN "sig1" ELSE "sig2"]
+SusFutsDef == [x \in XSus |-> IF x = "s1" THEN <<"s1a", "s1b", "s1c", "s1d">> ELSE <<"s2a", "s2b", "s2c", "s2d">>]
 M(c, o, r, a) == Msg(c, o, r, a)
 PlanLibDef == [n |-> <<M("null", "", "", "")>>, s |-> <<M("sleep", "", "", "")>>,
                nn |-> <<M("null", "", "", ""), M("null", "", "", "")>>]
